@@ -80,7 +80,7 @@ func cmdVerify(args []string) {
 		if r.Rejected != "" {
 			status = "REJECTED: " + r.Rejected
 			bad++
-		} else if ok+triv != n {
+		} else if ok+triv != n || strings.HasPrefix(r.Vacuity, "VACUOUS") {
 			status = "FAILED"
 			bad++
 		}
